@@ -31,7 +31,19 @@ case "$ID" in
     exec "$B/rel/release/mc" "$ID" "$@" ;;
   C01|C02|C03|C04|C05|C07|C08|C09|C10|C11|C12|C13|C16|C17|C18)
     build rel cargo build --release --offline
-    exec "$B/rel/release/mc" "$ID" "$@" ;;
+    "$B/rel/release/mc" "$ID" "$@"; rc=$?
+    if [ $rc -ge 128 ] && [ "${1:-}" != "--replay" ]; then
+      # The release runner was killed by a signal. In the unchecked default build a broken internal invariant
+      # of the subject is undefined behaviour; the bounds-checked build turns it into a panic, which the
+      # runner catches and reports with its witness. A crash that the checked build does not explain is a
+      # machinery failure, never a verdict.
+      echo "NOTE: the release runner died with signal $((rc-128)); repeating the exploration with the bounds-checked build (index-positions,prohibit-unsafe)"
+      build chk cargo build --release --offline --features index-positions,prohibit-unsafe
+      "$B/chk/release/mc" "$ID" "$@"; rc2=$?
+      if [ $rc2 -eq 1 ]; then exit 1; fi
+      echo "MACHINERY: release runner died with signal $((rc-128)) and the bounds-checked runner exited $rc2"; exit 3
+    fi
+    exit $rc ;;
   C06)
     build rel cargo build --release --offline
     build dbg cargo build --profile dbg --offline
